@@ -5,5 +5,6 @@ MaxThreads = 3
 Cap = 2
 AllowRetire = TRUE
 FixRetire = TRUE
+FixReset = TRUE
 INVARIANTS AtMostOnce JoinAfterDone QueueOK
 CONSTANT defaultInitValue = defaultInitValue
